@@ -5,7 +5,7 @@ use crate::{
 use log::{debug, error, info};
 use std::{
     fs::File,
-    io::{BufRead, BufReader, Result},
+    io::{BufRead, BufReader, ErrorKind, Result},
     net::TcpStream,
     sync::{Arc, Mutex},
     thread::{self, sleep},
@@ -28,7 +28,12 @@ fn read_lines<R: BufRead>(reader: R, args: &Args, planes: &mut Planes) -> Result
 
     let mut app_state = AppCounters::from_update_interval(args.update);
 
-    for line in reader.lines().map_while(Result::ok) {
+    for line in reader.lines() {
+        let line = match line {
+            Ok(line) => line,
+            Err(e) if e.kind() == ErrorKind::InvalidData => continue,
+            Err(e) => return Err(e),
+        };
         let Some(message) = get_message(&line) else {
             continue;
         };
